@@ -609,7 +609,10 @@ func (m *Msg) SetAddrHeaderIgnoreInvalid(header AddrHeader, values ...string) {
 	}
 	var addresses []*mail.Address
 	for _, addrVal := range values {
-		address, err := mail.ParseAddress(m.encodeString(addrVal))
+		// parse the address as it is given (same as SetAddrHeader does). Encoding the whole string
+		// first turns every address with a non-ASCII display name into an encoded-word, which is not a
+		// valid address anymore, so valid addresses would be ignored
+		address, err := mail.ParseAddress(addrVal)
 		if err != nil {
 			continue
 		}
